@@ -291,9 +291,15 @@ RESTART:
 		value = value.Elem()
 		goto RESTART
 	case reflect.Struct:
-		value = value.FieldByName(fields[lef])
-		if !value.IsValid() {
+		field, found := value.Type().FieldByName(fields[lef])
+		if !found {
 			left.errorf("identifier %q is not available in the current scope", fields[lef])
+		}
+		var err error
+		// (reflect.Value.FieldByName panics when the field is promoted through a nil embedded pointer)
+		value, err = fieldByIndex(value, field.Index)
+		if err != nil {
+			left.errorf("%v", err)
 		}
 		if !value.CanSet() {
 			left.errorf("field %q can't be assigned to (the struct is not addressable or the field is unexported)", fields[lef])
@@ -303,7 +309,20 @@ RESTART:
 		}
 		value.Set(right)
 	case reflect.Map:
-		value.SetMapIndex(reflect.ValueOf(&fields[lef]).Elem(), right)
+		if value.IsNil() {
+			left.errorf("can't assign to key %q of a nil map", fields[lef])
+		}
+		key := reflect.ValueOf(&fields[lef]).Elem()
+		if keyType := value.Type().Key(); !key.Type().AssignableTo(keyType) {
+			if !key.Type().ConvertibleTo(keyType) {
+				left.errorf("key %q can't be used with a map whose keys are of type %s", fields[lef], keyType)
+			}
+			key = key.Convert(keyType)
+		}
+		if right.IsValid() && !right.Type().AssignableTo(value.Type().Elem()) {
+			left.errorf("a value of type %s can't be assigned to key %q of a map with elements of type %s", getTypeString(right), fields[lef], value.Type().Elem())
+		}
+		value.SetMapIndex(key, right)
 	}
 }
 
@@ -1044,6 +1063,9 @@ func (st *Runtime) evalMultiplicativeExpression(node *MultiplicativeExprNode) re
 			if needFloatPromotion {
 				left = reflect.ValueOf(float64(left.Int()) / right.Float())
 			} else {
+				if toInt(right) == 0 {
+					node.Right.errorf("division by zero")
+				}
 				left = reflect.ValueOf(left.Int() / toInt(right))
 			}
 		} else if isFloat(kind) {
@@ -1052,6 +1074,9 @@ func (st *Runtime) evalMultiplicativeExpression(node *MultiplicativeExprNode) re
 			if needFloatPromotion {
 				left = reflect.ValueOf(float64(left.Uint()) / right.Float())
 			} else {
+				if toUint(right) == 0 {
+					node.Right.errorf("division by zero")
+				}
 				left = reflect.ValueOf(left.Uint() / toUint(right))
 			}
 		} else {
